@@ -25,25 +25,33 @@ structure Scn where
   cidx : Nat := 0
   n : Nat := 1
   late : Bool := false
+  skip : Bool := false
 
 def parseScn (ws : List String) : Option Scn :=
   ws.foldlM (fun (s : Scn) w =>
     match w.splitOn "=" with
-    | ["fmt", v] => if v = "fmp4" ∨ v = "ts" then some { s with fmt := v } else none
+    | ["fmt", v] => if v = "fmp4" ∨ v = "ts" ∨ v = "ll" then some { s with fmt := v } else none
     | ["layout", v] => if v = "single" ∨ v = "rend" then some { s with layout := v } else none
     | ["nseg", v] => v.toNat?.bind fun k => if 1 ≤ k ∧ k ≤ 6 then some { s with nseg := k } else none
     | ["fault", v] => if v ∈ ["none", "status", "transport", "stall", "ontracks"] then some { s with fault := v } else none
     | ["fidx", v] => v.toNat?.bind fun k => if k ≤ 1000 then some { s with fidx := k } else none
-    | ["close", v] => if v ∈ ["none", "start", "req", "ontracks", "pacing", "eos"] then some { s with close := v } else none
+    | ["close", v] => if v ∈ ["none", "start", "req", "held", "ontracks", "pacing", "eos"] then some { s with close := v } else none
     | ["cidx", v] => v.toNat?.bind fun k => if k ≤ 1000 then some { s with cidx := k } else none
     | ["n", v] => v.toNat?.bind fun k => if 1 ≤ k ∧ k ≤ 3 then some { s with n := k } else none
     | ["late", "0"] => some { s with late := false }
     | ["late", "1"] => some { s with late := true }
+    | ["skip", "0"] => some { s with skip := false }
+    | ["skip", "1"] => some { s with skip := true }
     | _ => none) {}
 
 /-- number of requests of a fault-free run to the end of the stream (primary playlist; per stream: its
     playlist unless it is the primary one, the init segment of fMP4, nseg segments, a reload between two) -/
 def nreq (s : Scn) : Nat :=
+  if s.fmt = "ll" then
+    -- Low-Latency: init, then `nseg` times (preload hint, playlist reload); the last reload carries no hint
+    let per := 1 + 2 * s.nseg
+    if s.layout = "single" then 1 + per else 1 + 2 * (1 + per)
+  else
   let per := 2 * s.nseg - 1 + (if s.fmt = "fmp4" then 1 else 0)
   if s.layout = "single" then 1 + per else 1 + 2 * (1 + per)
 
@@ -209,6 +217,32 @@ def populate (r : Run) (sel : Nat) : Run :=
       walk r (r.st.tasks.length - 1) (fun t => t == .node j) notCancel "extra"
   | none => r
 
+/-! ### the Low-Latency loop of the stream downloader: preload hint → its body → playlist reload → its body → … -/
+
+def nodeIs (k : Nat) (kind : OpKind) (fn : String) (t : Target) : Bool :=
+  match t, P.graphs[k]? with
+  | .node j, some g =>
+    match g.nodes[j]? with
+    | some n => n.kind == kind && ((Hls.Gen.blockingRows[n.row]?).map (·.fn) == some fn)
+    | none => false
+  | _, _ => false
+
+/-- park downloader task `i` in the Low-Latency loop: stage 0 = inside the preload-hint request, 1 = reading its body,
+    2 = inside the playlist reload that follows, 3 = reading the reloaded playlist -/
+def llPark (r : Run) (i : Nat) (stage : Nat) : Run :=
+  match kindIdx "clientStreamDownloader" with
+  | none => { r with stuck := some "no-kind:downloader" }
+  | some k =>
+    let r := walk r i (nodeIs k .httpDo "clientStreamDownloader.downloadPreloadHint") okOnly "ll:hint"
+    let r := if stage ≥ 1 then walk r i (nodeIs k .bodyRead "clientStreamDownloader.downloadPreloadHint") okOnly "ll:hint-body" else r
+    let r := if stage ≥ 2 then walk r i (nodeIs k .httpDo "downloadPlaylist") okOnly "ll:reload" else r
+    let r := if stage ≥ 3 then walk r i (nodeIs k .bodyRead "downloadPlaylist") okOnly "ll:reload-body" else r
+    r
+
+/-- which request of a Low-Latency downloader has (global) index `idx` in the single-stream layout: init, hint, reload -/
+def llStage (idx : Nat) : Option Nat :=
+  if idx < 2 then none else if idx % 2 = 0 then some 0 else some 2
+
 def finish (s : Scn) (r : Run) : String :=
   -- the owner: close the pool, wait for it, send
   let r := apply r .runner "owner:cancel"
@@ -237,12 +271,19 @@ def predict (s : Scn) : String :=
   let r : Run := { st := { runner := .init } }
   let r := apply r .runner "owner:init"
   let inRange := s.fidx < nreq s
-  let closeFirst : Bool := s.close = "start" ∨ (s.close = "req" ∧ s.cidx < nreq s ∧ (s.fault = "none" ∨ ¬ inRange ∨ s.cidx < s.fidx)) ∨
+  let closeFirst : Bool := s.close = "start" ∨ ((s.close = "req" ∨ s.close = "held") ∧ s.cidx < nreq s ∧ (s.fault = "none" ∨ ¬ inRange ∨ s.cidx < s.fidx)) ∨
     s.close = "ontracks" ∨ s.close = "pacing"
   if closeFirst then
     -- where the goroutines are when Close arrives
     let r := walk r 0 isNode notCancel "primary"
     let r := if s.close = "start" then r else populate r (s.cidx + 7 * s.nseg)
+    -- Low-Latency: one more downloader, parked in the request the scenario closes in (hint / blocking reload)
+    let r := if s.fmt = "ll" ∧ s.close ≠ "start" then
+        let (r, d) := spawnKind r 0 "clientStreamDownloader"
+        match (if s.close = "req" ∨ s.close = "held" then llStage s.cidx else some 2) with
+        | some st => llPark r d st
+        | none => walk r d isNode notCancel "ll:downloader"
+      else r
     let r := if s.close = "ontracks" then walk r 0 (fun t => match t with
         | .node j => (match P.graphs[P.primary]? with
           | some g => (match g.nodes[j]? with | some n => n.passThrough | none => false)
@@ -282,24 +323,37 @@ def predict (s : Scn) : String :=
     -- the body never arrives: the harness calls Close once the stalling request is out
     let r := walk r 0 isNode notCancel "primary"
     let r := populate r s.fidx
+    let r := if s.fmt = "ll" then
+        let (r, d) := spawnKind r 0 "clientStreamDownloader"
+        llPark r d (match llStage s.fidx with | some st => st + 1 | none => 0)
+      else r
     let r := closes r s.n
     let r := apply r .runnerCtx "owner:ctx"
     setHeld (finish s r) "-"
   else
     -- a task returns an error: which one
+    -- a Low-Latency stream ends when the origin stops advertising a hint: `return fmt.Errorf("preload hint disappeared")`
+    let llEnd : Bool := s.fmt = "ll" ∧ s.fault ≠ "ontracks" ∧ ¬ ((s.fault = "transport" ∨ s.fault = "status") ∧ inRange)
     let goal : Option RetK :=
       if s.fault = "ontracks" then some .callback
       else if s.fault = "transport" ∧ inRange then some .io
       else if s.fault = "status" ∧ inRange then some .other
+      else if llEnd then some .other
       else some .eos
     let (r, who) : Run × Nat :=
-      if (s.fault = "transport" ∨ s.fault = "status") ∧ inRange ∧ s.fidx > 0 then
+      if ((s.fault = "transport" ∨ s.fault = "status") ∧ inRange ∧ s.fidx > 0) ∨ llEnd then
         -- a request of a stream downloader
         let r := walk r 0 isNode notCancel "primary"
         let (r, d) := spawnKind r 0 "clientStreamDownloader"
         (r, d)
       else (r, 0)
     let r := if who ≠ 0 ∨ s.fault = "ontracks" ∨ goal = some .eos then populate (if who = 0 then walk r 0 isNode notCancel "primary" else r) s.fidx else r
+    let r := if s.fmt = "ll" ∧ who ≠ 0 then
+        (if llEnd then llPark r who 3 else
+          match llStage s.fidx with
+          | some st => llPark r who st
+          | none => r)
+      else r
     let r := match goal with
       | some .io => walk r who (fun t => t == .ret .io) notCancel "fail:io"
       | some .other => walk r who (fun t => t == .ret .other) okOnly "fail:status"
